@@ -3,6 +3,7 @@ from ..rules_tables import Tables
 from ..rules_flow import Flow
 from ..rules_gate import G1_siblings, G2_served, G4_strict, G6_no_extra_rejection
 from ..rules_ni import NI2_validity_sign_free
+from ..rules_k import K15_junk_characters
 
 
 def run(tree, rep, tier):
@@ -15,9 +16,11 @@ def run(tree, rep, tier):
     G4_strict(rep, flow, ["stabilizer_circuits.get_preparation_circuit", "stabilizer_circuits.compress_preparation_circuit"])
     G6_no_extra_rejection(rep, flow)
     NI2_validity_sign_free(rep, flow)
+    K15_junk_characters(rep, flow)
     rep.decided += ["the sibling definitions of 'supported configuration' agree with the 20 advertised pairs (G1)",
                     "every public entry point serves at most the advertised pairs (G2) and rejects no valid request for an advertised pair by a condition of its own (G6)",
                     "the underconstrained-input check of the sign-reference synthesis is never relaxed on the API path (G4)",
-                    "the verdict of the validity check does not depend on the signs (NI2; necessary for 'accepts exactly the sets of n commuting independent Paulis')"]
+                    "the verdict of the validity check does not depend on the signs (NI2; necessary for 'accepts exactly the sets of n commuting independent Paulis')",
+                    "strings containing a character that is no Pauli (lower case, digits, blanks, a sign inside the string) are refused by the parser (K15, probed alphabet)"]
     rep.not_decided += ["'raise or be correct' for arbitrary dependent / anticommuting Pauli sets (value-level)",
                         "the validity check accepts exactly the sets of n commuting independent Paulis (GF(2) arithmetic on runtime matrices)"]
